@@ -978,8 +978,15 @@ def rule_output_always_created(ctx, rule, fv, who):
     """A8: every path through the writer that ends normally (falls off the end or returns Ok) has
     created/truncated its output file; an early `return Ok(())` before the open leaves a stale file of an earlier
     run (or no file at all) where a fresh location would receive an (empty) result."""
+    helper_opens = {}
+    for c, hv in helper_views(ctx, fv):
+        if any(x.get("k") in ("call", "mcall") and (cname(x) in OPENERS or rname(x) in OPENERS) for x in hv.nodes):
+            helper_opens[hv.path] = True
+
     def is_open(n):
-        return n.get("k") in ("call", "mcall") and (cname(n) in OPENERS or rname(n) in OPENERS)
+        if n.get("k") not in ("call", "mcall"):
+            return False
+        return cname(n) in OPENERS or rname(n) in OPENERS or cname(n) in helper_opens or rname(n) in helper_opens
 
     def want(n):
         return is_open(n) or n.get("k") == "ret"
